@@ -9,6 +9,7 @@ require (
 	github.com/siderolabs/gen v0.8.7
 	go.etcd.io/bbolt v1.5.0
 	go.uber.org/zap v1.28.0
+	google.golang.org/grpc v1.82.0
 )
 
 require (
@@ -36,7 +37,6 @@ require (
 	golang.org/x/time v0.15.0 // indirect
 	google.golang.org/genproto/googleapis/api v0.0.0-20260713224248-f5fc221cf8c4 // indirect
 	google.golang.org/genproto/googleapis/rpc v0.0.0-20260713224248-f5fc221cf8c4 // indirect
-	google.golang.org/grpc v1.82.0 // indirect
 	google.golang.org/protobuf v1.36.11 // indirect
 	gopkg.in/yaml.v3 v3.0.1 // indirect
 )
